@@ -92,8 +92,10 @@ _CMP = {
 
 ANALOG_PIN_RE = re.compile(r"^A\d+$")
 
-# Largest integer (in bits) that constant folding of ``**`` and ``<<`` may produce.
+# Largest integer (in bits) that constant folding of ``**``, ``<<`` and ``*`` may produce.
 _MAX_FOLDED_BITS = 4096
+# Longest string that constant folding of ``+`` may produce.
+_MAX_FOLDED_CHARS = 1 << 16
 
 # --- verification hook (add-only) -------------------------------------------
 # With REDUINO_VERIF=1 in the environment at import time, every source line that
@@ -271,6 +273,8 @@ def _eval_const(expr: str, env: dict):
                     parts.append(str(ev(value.value)))
                     continue
                 raise ValueError("unsupported f-string")
+            if sum(len(part) for part in parts) > _MAX_FOLDED_CHARS:
+                raise ValueError("constant too large")
             return "".join(parts)
         if (
             isinstance(n, ast.Call)
@@ -339,6 +343,10 @@ def _eval_const(expr: str, env: dict):
 
     def _apply_bin(opcls, a, b):
         if opcls is ast.Add and isinstance(a, str) and isinstance(b, str):
+            # a folded string doubled line after line (``s = s + s``) would take
+            # gigabytes on the host; no board could hold it anyway
+            if len(a) + len(b) > _MAX_FOLDED_CHARS:
+                raise ValueError("constant too large")
             return a + b
         ops = {
             ast.Add: op.add, ast.Sub: op.sub, ast.Mult: op.mul, ast.Div: op.truediv,
@@ -355,6 +363,10 @@ def _eval_const(expr: str, env: dict):
             if opcls is ast.Pow and b > 0 and a.bit_length() * b > _MAX_FOLDED_BITS:
                 raise ValueError("constant too large")
             if opcls is ast.LShift and a.bit_length() + b > _MAX_FOLDED_BITS:
+                raise ValueError("constant too large")
+            # the same for products: a folded variable squared line after line
+            # (``a = a * a``) doubles its size every time
+            if opcls is ast.Mult and a.bit_length() + b.bit_length() > _MAX_FOLDED_BITS:
                 raise ValueError("constant too large")
         return ops[opcls](a, b)
 
